@@ -39,6 +39,10 @@ def cases(tier, seed):
                 continue  # no boundary family defined: identical to gen
             for r in range(reps if fam == "gen" else max(1, reps // 2)):
                 out.append(dict(cfg=cfg, family=fam, B=8 if tier == "quick" else 12, s=rnd.randrange(10**6)))
+    # a few instances at production sizes
+    if tier == "quick":
+        for cfg in [c for c in envzoo.routing_configs((50,)) if (c["env"] != "mtvrp" or c.get("preset") in ("all",)) and not (c.get("vcap") or c.get("prize_required") or c.get("dense") or c.get("speed"))] + [c for c in envzoo.routing_configs((100,)) if c["env"] in ("tsp", "cvrp")]:
+            out.append(dict(cfg=cfg, family="gen", B=4, s=rnd.randrange(10**6)))
     for cfg in envzoo.sched_configs(tier) + envzoo.select_configs(tier):
         for r in range(reps * 2):
             out.append(dict(cfg=cfg, family="gen", B=8, s=rnd.randrange(10**6), targets=2))
